@@ -190,11 +190,12 @@ def _leaky_relu_jvp_rule(
     slope = jnp.asarray(negative_slope, dtype=x.dtype)
 
     neg_branch = jax.lax.mul(slope, x)
-    primal_out = jax.lax.select(jax.lax.gt(x, zero), x, neg_branch)
+    # jax.nn.leaky_relu is where(x >= 0, x, slope * x): its derivative at 0 is 1
+    primal_out = jax.lax.select(jax.lax.ge(x, zero), x, neg_branch)
 
     one_like_x = jax.lax.broadcast_in_dim(one, x.shape, ())
     slope_like_x = jax.lax.broadcast_in_dim(slope, x.shape, ())
-    deriv = jax.lax.select(jax.lax.gt(x, zero), one_like_x, slope_like_x)
+    deriv = jax.lax.select(jax.lax.ge(x, zero), one_like_x, slope_like_x)
     tangent_out = jax.lax.mul(x_dot, deriv)
     return primal_out, tangent_out
 
